@@ -623,6 +623,24 @@ func (c *cidRun) mgrWitnesses() {
 	s.do(add(6, 2))
 	s.do(&mOp{kind: "close"})
 	s.emit()
+	// W10: an ID is in use on a probing path, the active ID rotates past it twice (highestRetired
+	// ends above the probing ID's number), then the path is given up: RETIRE_CONNECTION_ID and the
+	// removal of its reset token are still due; nothing may be left after Close
+	for _, closeFirst := range []bool{false, true} {
+		s = c.newMgrSession(init, "W10")
+		s.do(&mOp{kind: "settok", tok: tokOf(998)})
+		s.do(add(1, 0)); s.do(add(2, 0)); s.do(add(3, 0))
+		s.do(&mOp{kind: "pget", pid: 1})
+		s.do(&mOp{kind: "hs"}); s.do(&mOp{kind: "get"})
+		s.do(add(4, 0)); s.do(add(5, 0))
+		s.do(&mOp{kind: "sent", k: 16000}); s.do(&mOp{kind: "get"})
+		if !closeFirst {
+			s.do(&mOp{kind: "pret", pid: 1})
+			s.do(&mOp{kind: "istok", tok: tokOf(1001)})
+		}
+		s.do(&mOp{kind: "close"})
+		s.emit()
+	}
 	// W4: exactly the limit is accepted, one more is refused
 	s = c.newMgrSession(init, "W4")
 	for q := uint64(1); q <= maxActive; q++ {
@@ -657,7 +675,67 @@ func (c *cidRun) mgrWitnesses() {
 	s.emit()
 }
 
+// mgrProbeRotateCase: GetConnIDForPath, then the active ID rotates past the probing ID (first
+// rotation after handshake completion, further ones after packetsPerConnectionID packets with a
+// half-full queue, or forced by Retire Prior To), then RetireConnIDForPath, then Close.
+func (c *cidRun) mgrProbeRotateCase(r *u.Rng, idx int) {
+	s := c.newMgrSession(r.Bytes(r.Range(4, 8)), fmt.Sprintf("p%d", idx))
+	base := 2000 + r.U64()%1000
+	next := uint64(1)
+	add := func(rpt uint64) {
+		s.do(&mOp{kind: "add", seq: next, rpt: rpt, cid: cidFor(base, next, 0), tok: tokOf(base*1000000 + next*10)})
+		next++
+	}
+	if r.Bool() {
+		s.do(&mOp{kind: "settok", tok: tokOf(base*1000000 + 5)})
+	}
+	for i := r.Range(2, 3); i > 0; i-- {
+		add(0)
+	}
+	paths := r.Range(1, 2)
+	for p := 1; p <= paths; p++ {
+		s.do(&mOp{kind: "pget", pid: int64(p)})
+		if r.Bool() {
+			add(0)
+		}
+	}
+	s.do(&mOp{kind: "hs"})
+	s.do(&mOp{kind: "get"}) // first rotation
+	for rot := r.Range(1, 3); rot > 0; rot-- {
+		for len(s.v.State().Queue) < 2 && 1+len(s.v.State().Queue) < s.limit() {
+			add(0)
+		}
+		st := s.v.State()
+		if r.Chance(1, 4) && len(st.Queue) > 0 {
+			// rotation forced by the peer: Retire Prior To just above the active number (probing IDs
+			// below it are retired by the frame itself)
+			add(st.ActiveSeq + 1)
+		} else {
+			s.do(&mOp{kind: "sent", k: int(st.PPC-st.Since) + r.Intn(3)})
+			s.do(&mOp{kind: "get"})
+		}
+		if r.Chance(1, 3) {
+			s.do(&mOp{kind: "istok", tok: tokOf(base*1000000 + 10)})
+		}
+	}
+	for p := 1; p <= paths; p++ {
+		if r.Chance(4, 5) {
+			s.do(&mOp{kind: "pret", pid: int64(p)})
+		}
+	}
+	if r.Bool() {
+		s.do(&mOp{kind: "get"})
+	}
+	s.do(&mOp{kind: "close"})
+	s.c.dist["mgr/cases-probe-rotate-retire"]++
+	s.emit()
+}
+
 func (c *cidRun) mgrCase(r *u.Rng, idx int) {
+	if idx%12 == 5 {
+		c.mgrProbeRotateCase(r, idx)
+		return
+	}
 	var initial []byte
 	if !r.Chance(1, 12) {
 		initial = r.Bytes(r.Range(4, 8))
